@@ -9,15 +9,16 @@ extern std::default_random_engine generator;
 static uint64_t tok() { std::ostringstream o; o << generator; std::string s = o.str(); return hmix(0x70, s.data(), s.size()); }
 static long seqn = 0;
 struct Stream {
-    std::string name; double alpha; std::vector<long> batch; long hist[16]; long nmask; long zeros; std::vector<uint32_t> prev; long same, npairs;
-    Stream(const std::string& n, double a) : name(n), alpha(a), nmask(0), zeros(0), same(0), npairs(0) { memset(hist, 0, sizeof hist); }
+    std::string name; double alpha; std::vector<long> batch; long hist[16]; long nmask; long zeros; std::vector<uint32_t> prev; long same, npairs; int32_t preverr; bool haveprev; long sameerr;
+    Stream(const std::string& n, double a) : name(n), alpha(a), nmask(0), zeros(0), same(0), npairs(0), preverr(0), haveprev(false), sameerr(0) { memset(hist, 0, sizeof hist); }
     // per-coordinate freshness: a coordinate that equals the same coordinate of the previous mask (probability 2^-32 for a fresh uniform mask)
     void maskvec(const Torus32* a, int n) { if ((int)prev.size() == n) { for (int i = 0; i < n; i++) if ((uint32_t)a[i] == prev[i]) same++; npairs += n; } prev.assign((const uint32_t*)a, (const uint32_t*)a + n); }
-    void err(int32_t e) { if (e == 0) zeros++; if (alpha == 0) batch.push_back(e); else batch.push_back(lround((double)e / (alpha * 4294967296.0 / 64.0))); if (batch.size() >= 64) flush(); }
+    // freshness of the noise itself: an error equal to the previous one of the stream (probability about 0.28 / (alpha 2^32) for independent draws)
+    void err(int32_t e) { if (haveprev && e == preverr) sameerr++; preverr = e; haveprev = true; if (e == 0) zeros++; if (alpha == 0) batch.push_back(e); else batch.push_back(lround((double)e / (alpha * 4294967296.0 / 64.0))); if (batch.size() >= 64) flush(); }
     void mask(uint32_t w) { hist[w >> 28]++; nmask++; }
     void flush() { if (batch.empty()) return; VH_B; vh_i("seq", seqn++); VH_C; vh_s("e", "Errs"); VH_C; vh_s("s", name.c_str()); VH_C; fputs("\"v\":[", vh_out); for (size_t i = 0; i < batch.size(); i++) fprintf(vh_out, "%s%ld", i ? "," : "", batch[i]); fputs("]", vh_out); VH_E; batch.clear(); }
     void end() { flush(); long s32 = alpha == 0 ? 0 : lround(alpha * 4294967296.0); if (s32 > 2000000000L) s32 = 2000000000L;
-        VH_B; vh_i("seq", seqn++); VH_C; vh_s("e", "StreamEnd"); VH_C; vh_s("s", name.c_str()); VH_C; vh_i("s32", s32); VH_C; vh_i("exact", alpha == 0 ? 1 : 0); VH_C; fputs("\"hist\":[", vh_out); for (int i = 0; i < 16; i++) fprintf(vh_out, "%s%ld", i ? "," : "", hist[i]); fprintf(vh_out, "],\"nmask\":%ld,\"same\":%ld,\"npairs\":%ld,\"zeros\":%ld", nmask, same, npairs, zeros); VH_E; }
+        VH_B; vh_i("seq", seqn++); VH_C; vh_s("e", "StreamEnd"); VH_C; vh_s("s", name.c_str()); VH_C; vh_i("s32", s32); VH_C; vh_i("exact", alpha == 0 ? 1 : 0); VH_C; fputs("\"hist\":[", vh_out); for (int i = 0; i < 16; i++) fprintf(vh_out, "%s%ld", i ? "," : "", hist[i]); fprintf(vh_out, "],\"nmask\":%ld,\"same\":%ld,\"npairs\":%ld,\"zeros\":%ld,\"sameerr\":%ld", nmask, same, npairs, zeros, sameerr); VH_E; }
 };
 static std::string fmt(const char* f, double a, int x = 0) { char b[96]; snprintf(b, sizeof b, f, a, x); return b; }
 static void rand_ev(const char* op, uint64_t t0, uint64_t args, uint64_t out) {
@@ -75,6 +76,19 @@ static void fresh(int per) {
       for (int i = 0; i < 40; i++) for (int j = 0; j < 6; j++) for (int h = 1; h < 4; h++) { const LweSample& r = ks->ks[i][j][h]; Torus32 msg = (Torus32)((uint32_t)(ki->key[i] * h) << (32 - (j + 1) * 2));
           s.err(lwePhase(&r, ko) - msg); s.mask((uint32_t)r.a[(i + j + h) % 33]); s.mask((uint32_t)r.a[(i * 7 + j + h) % 33]); s.maskvec(r.a, 33); }
       s.end(); delete_LweKeySwitchKey(ks); delete_LweKey(ki); delete_LweKey(ko); delete_LweParams(pi); delete_LweParams(po); }
+    // key-switching keys with few rows per input coefficient (t*(base-1) = 1, 2, 3, 4): every row still carries the full noise level, and the noise of the rows
+    // that belong to one input coefficient does not cancel (the generator centres the noise vector over the whole key, not per coefficient)
+    { const int lay[4][3] = {{1400, 1, 1}, {3000, 2, 1}, {3000, 1, 2}, {4000, 4, 1}};
+      for (int q = 0; q < 4; q++) { int nin = lay[q][0], t = lay[q][1], bb = lay[q][2], base = 1 << bb; double al = ldexp(1., -20);
+        LweParams* pi = new_LweParams(nin, 0, 1); LweParams* po = new_LweParams(9, al, 1); LweKey* ki = new_LweKey(pi); LweKey* ko = new_LweKey(po); lweKeyGen(ki); lweKeyGen(ko);
+        LweKeySwitchKey* ks = new_LweKeySwitchKey(nin, t, bb, po); lweCreateKeySwitchKey(ks, ki, ko);
+        Stream s(fmt("ks/t%.0fb%d", (double)t, bb), al); Stream sb(fmt("ksblock/t%.0fb%d", (double)t, bb), al * sqrt((double)(t * (base - 1))));
+        for (int i = 0; i < nin; i++) { int32_t sum = 0;
+            for (int j = 0; j < t; j++) for (int h = 1; h < base; h++) { const LweSample& r = ks->ks[i][j][h]; Torus32 msg = (Torus32)((uint32_t)(ki->key[i] * h) << (32 - (j + 1) * bb));
+                int32_t e = lwePhase(&r, ko) - msg; s.err(e); sum += e; s.mask((uint32_t)r.a[(i + j + h) % 9]); if (i % 8 == 0) s.maskvec(r.a, 9); }
+            if (t * (base - 1) > 1) { sb.err(sum); sb.mask((uint32_t)ks->ks[i][0][1].a[i % 9]); } }
+        s.end(); if (t * (base - 1) > 1) sb.end();
+        delete_LweKeySwitchKey(ks); delete_LweKey(ki); delete_LweKey(ko); delete_LweParams(pi); delete_LweParams(po); } }
     TLweParams* tp = new_TLweParams(1024, 1, 0, 1); TLweKey* tk = new_TLweKey(tp); tLweKeyGen(tk); TLweSample* tc = new_TLweSample(tp); TorusPolynomial* ph = new_TorusPolynomial(1024);
     { long ones = 0; for (int i = 0; i < 1024; i++) ones += tk->key[0].coefs[i]; VH_B; vh_i("seq", seqn++); VH_C; vh_s("e", "KeyBits"); VH_C; vh_s("s", "tlwe1024"); VH_C; vh_i("ones", ones); VH_C; vh_i("n", 1024); VH_E; }
     for (int ai = 1; ai < 7; ai++) { Stream s(fmt("tlwe/a%.3g", alphas[ai]), alphas[ai]);
@@ -98,9 +112,11 @@ static void keyrows(int lambda, int bkrows) {
     const LweKeySwitchKey* ks = sk->cloud.bk->ks; int n = p->in_out_params->n; double aks = p->in_out_params->alpha_min, abk = p->tgsw_params->tlwe_params->alpha_min;
     LweKey* xk = new_LweKey(&p->tgsw_params->tlwe_params->extracted_lweparams); tLweExtractKey(xk, &sk->tgsw_key->tlwe_key);
     Stream s(fmt("ks/lambda%.0f", (double)lambda), aks); long nontrivial0 = 0, rows0 = 0;
+    Stream sb(fmt("ksblock/lambda%.0f", (double)lambda), aks * sqrt((double)(ks->t * (ks->base - 1)))); std::vector<int32_t> bsum(ks->n, 0);
     for (int i = 0; i < ks->n; i++) for (int j = 0; j < ks->t; j++) { const LweSample& z = ks->ks[i][j][0]; rows0++; bool triv = z.b == 0; for (int q = 0; q < n && triv; q++) if (z.a[q]) triv = false; if (!triv) nontrivial0++;
-        for (int h = 1; h < ks->base; h++) { const LweSample& r = ks->ks[i][j][h]; Torus32 msg = (Torus32)((uint32_t)(xk->key[i] * h) << (32 - (j + 1) * ks->basebit)); s.err(lwePhase(&r, sk->lwe_key) - msg); s.mask((uint32_t)r.a[(i + j + h) % n]); if ((i + j) % 16 == 0) s.maskvec(r.a, n); } }
+        for (int h = 1; h < ks->base; h++) { const LweSample& r = ks->ks[i][j][h]; Torus32 msg = (Torus32)((uint32_t)(xk->key[i] * h) << (32 - (j + 1) * ks->basebit)); { int32_t e = lwePhase(&r, sk->lwe_key) - msg; s.err(e); bsum[i] += e; } s.mask((uint32_t)r.a[(i + j + h) % n]); if ((i + j) % 16 == 0) s.maskvec(r.a, n); } }
     s.end();
+    for (int i = 0; i < ks->n; i++) { sb.err(bsum[i]); sb.mask((uint32_t)ks->ks[i][0][1].a[i % n]); } sb.end();          // the noise of the rows of one input coefficient does not cancel
     VH_B; vh_i("seq", seqn++); VH_C; vh_s("e", "Digit0"); VH_C; vh_s("s", s.name.c_str()); VH_C; vh_i("rows", rows0); VH_C; vh_i("nontrivial", nontrivial0); VH_E;
     { long ones = 0; for (int i = 0; i < n; i++) ones += sk->lwe_key->key[i]; VH_B; vh_i("seq", seqn++); VH_C; vh_s("e", "KeyBits"); VH_C; vh_s("s", fmt("lwekey/lambda%.0f", (double)lambda).c_str()); VH_C; vh_i("ones", ones); VH_C; vh_i("n", n); VH_E; }
     Stream b(fmt("bk/lambda%.0f", (double)lambda), abk); const TGswParams* gp = p->tgsw_params; TorusPolynomial* ph = new_TorusPolynomial(1024); VhRng r(lambda);
